@@ -648,11 +648,9 @@ def _gradient_iterative(expr: Expression, wrt: Variable) -> Expression:
             elif current.op == "cosh":
                 results[node_id] = _simplify_mul(sinh(operand), d_operand)
             else:
-                # For other unary ops, fall back to numerical or raise
-                raise UnknownOperatorError(
-                    operator=current.op,
-                    context="iterative gradient computation (unary)",
-                )
+                # Remaining unary operators (inverse trigonometric / hyperbolic
+                # functions, log2, log10): same rules as the recursive path.
+                results[node_id] = _unary_chain_rule(current, d_operand)
             continue
 
         raise InvalidExpressionError(
@@ -662,6 +660,41 @@ def _gradient_iterative(expr: Expression, wrt: Variable) -> Expression:
         )
 
     return results.get(id(expr), Constant(0.0))
+
+
+def _unary_chain_rule(expr: Any, d_operand: Expression) -> Expression:
+    """d/dx f(a) = f'(a) * da for the inverse trigonometric / hyperbolic
+    functions and the base-2 / base-10 logarithms."""
+    from optyx.core.expressions import Constant
+    from optyx.core.functions import sqrt as sqrt_fn
+
+    operand = expr.operand
+    op = expr.op
+    one = Constant(1.0)
+    square = _simplify_mul(operand, operand)
+
+    if op == "asin":
+        factor = _simplify_div(one, sqrt_fn(_simplify_sub(one, square)))
+    elif op == "acos":
+        factor = _simplify_neg(_simplify_div(one, sqrt_fn(_simplify_sub(one, square))))
+    elif op == "atan":
+        factor = _simplify_div(one, _simplify_add(one, square))
+    elif op == "asinh":
+        factor = _simplify_div(one, sqrt_fn(_simplify_add(one, square)))
+    elif op == "acosh":
+        factor = _simplify_div(one, sqrt_fn(_simplify_sub(square, one)))
+    elif op == "atanh":
+        factor = _simplify_div(one, _simplify_sub(one, square))
+    elif op == "log2":
+        factor = _simplify_div(one, _simplify_mul(operand, Constant(np.log(2.0))))
+    elif op == "log10":
+        factor = _simplify_div(one, _simplify_mul(operand, Constant(np.log(10.0))))
+    else:
+        raise UnknownOperatorError(
+            operator=op,
+            context="iterative gradient computation (unary)",
+        )
+    return _simplify_mul(factor, d_operand)
 
 
 # =============================================================================
